@@ -265,6 +265,19 @@ def run(M, rec, tier, seed, k, n):
             built = D.build(M, desc, D.random_ops(desc, rng))
             rec.count("networks_with_clashing_names", 1 if ncl else 0)
         one_network(M, rec, rng, g, desc, built, tier)
+        if it % 3 == 1:
+            # the same origin/destination OBJECTS live on in a second valid network with other links, and
+            # an element of the first network is replaced through the API: both must step and compile
+            desc2 = G.redraw_link_params(built.desc, rng)
+            reuse = dict(built.origins)
+            reuse.update(built.dests)
+            built2 = D.build(M, desc2, D.random_ops(desc2, rng), reuse=reuse)
+            rec.count("networks_reusing_element_objects")
+            one_network(M, rec, rng, g, desc2, built2, tier)
+            desc3, what = W.replace_elements_inplace(M, built2, built2.desc, rng)
+            if what:
+                rec.count("networks_after_element_replacement")
+                one_network(M, rec, rng, g, desc3, built2, tier)
     if rec.counters.get("valid_networks", 0) <= 3:
         pass
     rec.sample({"example_network": desc})
